@@ -285,7 +285,9 @@ func (s *Service) trafficInit() error {
 	if err != nil {
 		return fmt.Errorf("failed to get the chain balance")
 	}
+	s.trafficPeers.trafficLock.Lock()
 	s.trafficPeers.balance = balance
+	s.trafficPeers.trafficLock.Unlock()
 
 	paiOut, err := s.trafficChainService.TransferredTotal(s.chainAddress)
 	if err != nil {
@@ -443,32 +445,44 @@ func (s *Service) Address() common.Address {
 	return s.chainAddress
 }
 
-func (s *Service) TrafficInfo() (*TrafficInfo, error) {
-	respTraffic := NewTrafficInfo()
+func (s *Service) snapshot() (list []*Traffic, keys []string, balance *big.Int) {
 	s.trafficPeers.trafficLock.Lock()
 	defer s.trafficPeers.trafficLock.Unlock()
+	for k, t := range s.trafficPeers.trafficPeers {
+		list = append(list, t)
+		keys = append(keys, k)
+	}
+	return list, keys, s.trafficPeers.balance
+}
+
+func (s *Service) TrafficInfo() (*TrafficInfo, error) {
+	respTraffic := NewTrafficInfo()
+	list, _, balance := s.snapshot()
 	cashed := big.NewInt(0)
 	transfer := big.NewInt(0)
-	for _, traffic := range s.trafficPeers.trafficPeers {
+	for _, traffic := range list {
+		traffic.Lock()
 		cashed = new(big.Int).Add(cashed, traffic.retrieveChainTraffic)
 		transfer = new(big.Int).Add(transfer, traffic.retrieveChequeTraffic)
 		respTraffic.TotalSendTraffic = new(big.Int).Add(respTraffic.TotalSendTraffic, traffic.retrieveChequeTraffic)
 		respTraffic.ReceivedTraffic = new(big.Int).Add(respTraffic.ReceivedTraffic, traffic.transferChequeTraffic)
+		traffic.Unlock()
 	}
 
-	respTraffic.Balance = s.trafficPeers.balance
+	respTraffic.Balance = balance
 	respTraffic.AvailableBalance = new(big.Int).Add(respTraffic.Balance, new(big.Int).Sub(cashed, transfer))
 
 	return respTraffic, nil
 }
 
 func (s *Service) TrafficCheques() ([]*TrafficCheque, error) {
-	s.trafficPeers.trafficLock.Lock()
-	defer s.trafficPeers.trafficLock.Unlock()
+	list, keys, _ := s.snapshot()
 	var trafficCheques []*TrafficCheque
-	for chainAddress, traffic := range s.trafficPeers.trafficPeers {
+	for i, traffic := range list {
+		chainAddress := keys[i]
 		peer, known := s.addressBook.BeneficiaryPeer(common.HexToAddress(chainAddress))
 		if known {
+			traffic.Lock()
 			trans := new(big.Int).Sub(traffic.transferTraffic, traffic.transferChequeTraffic)
 			retrieve := new(big.Int).Sub(traffic.retrieveTraffic, traffic.retrieveChequeTraffic)
 			trafficCheque := &TrafficCheque{
@@ -480,6 +494,7 @@ func (s *Service) TrafficCheques() ([]*TrafficCheque, error) {
 				Uncashed:            new(big.Int).Sub(traffic.transferChequeTraffic, traffic.transferChainTraffic),
 				Status:              traffic.status,
 			}
+			traffic.Unlock()
 			if trafficCheque.OutstandingTraffic.Cmp(big.NewInt(0)) == 0 && trafficCheque.SentSettlements.Cmp(big.NewInt(0)) == 0 && trafficCheque.ReceivedSettlements.Cmp(big.NewInt(0)) == 0 {
 				continue
 			}
@@ -503,12 +518,16 @@ func (s *Service) Pay(ctx context.Context, peer boson.Address, paymentThreshold 
 		}
 		return ErrUnknownBeneficary
 	}
-	balance := s.retrieveTraffic(recipient)
+	available, err := s.AvailableBalance()
+	if err != nil {
+		return err
+	}
 	traffic := s.getTraffic(recipient)
 	traffic.Lock()
 	defer traffic.Unlock()
+	balance := new(big.Int).Sub(traffic.retrieveTraffic, traffic.retrieveChequeTraffic)
 	if balance.Cmp(paymentThreshold) >= 0 {
-		if err := s.issue(ctx, peer, recipient, s.chainAddress, balance, traffic); err != nil {
+		if err := s.issue(ctx, peer, recipient, s.chainAddress, balance, available, traffic); err != nil {
 			return err
 		}
 	}
@@ -516,16 +535,11 @@ func (s *Service) Pay(ctx context.Context, peer boson.Address, paymentThreshold 
 	return nil
 }
 
-func (s *Service) issue(ctx context.Context, peer boson.Address, recipient, beneficiary common.Address, balance *big.Int, traffic *Traffic) error {
+func (s *Service) issue(ctx context.Context, peer boson.Address, recipient, beneficiary common.Address, balance, available *big.Int, traffic *Traffic) error {
 
 	defer func() {
 		_ = s.notifyPaymentFunc(peer, balance)
 	}()
-
-	available, err := s.AvailableBalance()
-	if err != nil {
-		return err
-	}
 
 	if available.Cmp(balance) < 0 {
 		return ErrInsufficientFunds
@@ -659,16 +673,17 @@ func (s *Service) PutTransferTraffic(peer boson.Address, traffic *big.Int) error
 
 // AvailableBalance Get actual available balance
 func (s *Service) AvailableBalance() (*big.Int, error) {
-	s.trafficPeers.trafficLock.Lock()
-	defer s.trafficPeers.trafficLock.Unlock()
+	list, _, balance := s.snapshot()
 	cashed := big.NewInt(0)
 	transfer := big.NewInt(0)
-	for _, traffic := range s.trafficPeers.trafficPeers {
+	for _, traffic := range list {
+		traffic.Lock()
 		cashed = new(big.Int).Add(cashed, traffic.retrieveChainTraffic)
 		transfer = new(big.Int).Add(transfer, traffic.retrieveTraffic)
+		traffic.Unlock()
 	}
 
-	return new(big.Int).Add(s.trafficPeers.balance, new(big.Int).Sub(cashed, transfer)), nil
+	return new(big.Int).Add(balance, new(big.Int).Sub(cashed, transfer)), nil
 }
 
 func (s *Service) Handshake(peer boson.Address, recipient common.Address, signedCheque chequePkg.SignedCheque) error {
@@ -818,9 +833,9 @@ func (s *Service) cashChequeReceiptUpdate() {
 			if err != nil {
 				return fmt.Errorf("failed to get the chain balance")
 			}
-			s.peersLock.Lock()
+			s.trafficPeers.trafficLock.Lock()
 			s.trafficPeers.balance = balance
-			s.peersLock.Unlock()
+			s.trafficPeers.trafficLock.Unlock()
 			err = s.trafficPeerChainUpdate(beneficiary, s.chainAddress)
 			if err != nil {
 				return err
